@@ -1459,7 +1459,13 @@ def weave_check_definitions(w, sc):
 def weave_check_definition(w, sc):
     strip_clippy(w)
     w.rewrite_regex("R2-type-substitution", r"source_path: Option<&'a Path>,", "source_path: SourcePath<'a>,", expect=1, note="only passed on to the error constructors")
-    w.contract(sc["check_definition.contract"], attrs="#[verifier::exec_allows_no_decreases_clause]")
+    w.contract(sc["check_definition.contract"])
+    w.body_first(sc["check_definition.first"])
+    i = w.find(r"^\s*if visited\.insert\((\w+)\) \{$")
+    di = re.match(r"^\s*if visited\.insert\((\w+)\) \{$", w.lines[i]).group(1)
+    w.lines[i + 1 : i + 1] = sc["check_definition.inserted"].replace("$DI", di).rstrip("\n").split("\n")
+    w.lines[i:i] = sc["check_definition.before_insert"].rstrip("\n").split("\n")
+    w.log["annotations"].append({"fn": w.name, "kind": "proof hints", "anchor": "around visited.insert(..)"})
     if error_pushes_opaque(w) != 1:
         raise LostAnchor(f"{w.src.rel} fn check_definition: expected one `errors.push(throw::<Error>(..))`")
     # R22: by-value iteration of a HashSet<usize> -> iteration by reference + copy of the element
@@ -1742,7 +1748,7 @@ def build_pipeline(repo, external=(), canary=None, with_witness=True, boost=Fals
     b.add(read("spec/resolve_context.rs"))
     b.add(read("spec/resolve_lemmas.rs"))
     cd_spec = read("spec/resolve_defcheck.rs")
-    b.add(cd_spec[cd_spec.index("// an upper bound on what `depth` can grow to"):])      # cd_depth only; the two stubs of that file are not needed here
+    b.add(cd_spec[cd_spec.index("// an upper bound on what `depth` can grow to"):cd_spec.index("// a finite set of indices below n")])      # cd_depth only
     cds = Woven(parser_rs, "fn", "check_definitions", log)
     strip_clippy(cds)
     cds.rewrite_regex("R2-type-substitution", r"source_path: Option<&'a Path>,", "source_path: SourcePath<'a>,", expect=1)
